@@ -163,6 +163,7 @@ def check(prog, run):
 
     from . import c01_grammar
     c01_grammar.check(prog, run)
+    check_text_position_pairing(prog, run, "P2")
 
 
 def syntax_error_position(call, clsname):
@@ -326,3 +327,49 @@ def name_guarded(m, cmp_node, tok):
             return False
         cur = par
     return False
+
+
+def check_text_position_pairing(prog, run, rule_id):
+    """P2: a position is only ever used together with the text it indexes."""
+    from .. import boolx
+    r = run.rule(rule_id, "rendering of syntax errors (_string_utils, exc): every call of index_to_loc / highlight_location / "
+                          "loc_to_index is given, on every execution, the text the position refers to — the path value of the text "
+                          "argument is a parameter of the calling function or the `.source` of the error / node itself, never a transformed copy (a "
+                          "normalised, stripped or re-joined text has other offsets: positions near the end then fall outside it and "
+                          "str(error) / to_dict() raise IndexError)", 3)
+    TARGETS = ("index_to_loc", "highlight_location", "loc_to_index")
+    n = 0
+    for f in prog.all_funcs():
+        if f.module.name not in ("py_gql._string_utils", "py_gql.exc") or isinstance(f.node, ast.Lambda):
+            continue
+        if not any(isinstance(c, ast.Call) and isinstance(c.func, ast.Name) and c.func.id in TARGETS for c in own_nodes(f.node)):
+            continue
+        a = f.node.args
+        params = {x.arg for x in a.posonlyargs + a.args + a.kwonlyargs}
+        try:
+            _ev, exits = boolx.walk_under(f.node, lambda t: None)
+        except ValueError as e:
+            raise AnalysisError("C01.%s: %s" % (rule_id, e))
+        seen = set()
+        for kind, st, env in exits:
+            stmts = env.get(boolx.STMTS, ())
+            for c in env.get(boolx.CALLS, ()):
+                if not (isinstance(c.func, ast.Name) and c.func.id in TARGETS and c.args):
+                    continue
+                holder = c
+                while holder is not None and not isinstance(holder, ast.stmt):
+                    holder = getattr(holder, "_parent", None)
+                v = boolx.path_subst(c.args[0], boolx.path_env(stmts, holder))
+                txt = " ".join(ast.unparse(v).split())
+                if (id(c), txt) in seen:
+                    continue
+                seen.add((id(c), txt))
+                n += 1
+                r.instance("%s: %s(%s, ...)" % (f.qualname, c.func.id, txt[:40]))
+                ok = (isinstance(v, ast.Name) and v.id in params) or (isinstance(v, ast.Attribute) and v.attr == "source" and isinstance(v.value, ast.Name))
+                if not ok:
+                    run.report(r, "%s:%s:text-transformed(%s)" % (f.module.name, f.qualname, c.func.id), f.where(c),
+                               "%s hands `%s` to %s together with a position computed for the original text: the offsets no longer "
+                               "agree (the position can lie beyond the end of the changed text)" % (f.qualname, txt[:80], c.func.id))
+    if not n:
+        raise AnalysisError("C01.%s: no call of index_to_loc / highlight_location found" % rule_id)
